@@ -130,7 +130,16 @@ func c02Property(t *rapid.T) {
 	for g := range per {
 		per[g] = rapid.IntRange(1, 8).Draw(t, "sends")
 	}
-	events := rapid.SliceOfN(rapid.SampledFrom([]string{"testrequest", "testrequest", "reject", "resend", "resend", "heartbeat", "flush", "flush", "yield"}), 3, 25).Draw(t, "events")
+	evKinds := []string{"testrequest", "testrequest", "reject", "resend", "resend", "heartbeat", "flush", "flush", "yield"}
+	// in a third of the cases the connection also drops and comes back while the goroutines keep
+	// submitting: the Logon answer (and whatever else the session sends on its own) takes its
+	// number under the same rules as the application's messages
+	withReconnects := rapid.IntRange(0, 2).Draw(t, "with-reconnects") == 0
+	if withReconnects {
+		evKinds = append(evKinds, "reconnect", "reconnect")
+	}
+	events := rapid.SliceOfN(rapid.SampledFrom(evKinds), 3, 25).Draw(t, "events")
+	reconnected := false
 	var wg sync.WaitGroup
 	var accepted int64
 	start := make(chan struct{})
@@ -186,6 +195,17 @@ func c02Property(t *rapid.T) {
 		case "heartbeat":
 			r.Timeout(1)
 			engineMsgs++
+		case "reconnect":
+			r.Disconnect()
+			// (every connection has its own reader goroutine stamping what it takes off the wire:
+			// the old one has taken everything before the new connection exists)
+			r.WaitDrained()
+			if _, ok := r.Connect(); ok {
+				_, f := p.Next("A", p.LogonBody(30, false))
+				r.In(f)
+			}
+			reconnected = true
+			engineMsgs++
 		case "flush":
 			r.Flush()
 		case "yield":
@@ -206,6 +226,9 @@ func c02Property(t *rapid.T) {
 	}
 	if !r.V.IsLoggedOn() {
 		t.Fatalf("harness: the session left the logged-on state during the case (state %s)", r.V.StateName())
+	}
+	if reconnected {
+		c.Class("threads:reconnect-while-goroutines-submit")
 	}
 	lastS := r.S()
 	r.Disconnect()
@@ -279,7 +302,9 @@ func c02Property(t *rapid.T) {
 		}
 	}
 	for _, s := range saves {
-		if !sentFirst[s.Seq] {
+		// (a message accepted while the connection was down is not transmitted for the first time:
+		// with reconnects in the plan this clause is left to the sequential stage)
+		if !sentFirst[s.Seq] && !reconnected {
 			vk.Violation(t, c, "C02/assigned-number-never-transmitted", "number %d was handed out while logged on but never transmitted\n%s", s.Seq, describe())
 		}
 	}
